@@ -2,7 +2,7 @@
 import specs
 from specs import graph_property
 
-RESET = dict(name="Reset", b="none", fp="none", rf="none", res="ok")
+RESET = dict(name="Reset", b="none", fp="none", rf="none", mk="none", res="ok")
 FORMULAS = dict(
     invariants=["C18_NoResidue", "C18_RefundsWellFormed"],
     properties=["C18_AttMarkedObserved", "C18_CallRefundExact", "C18_GovMarkedFailed", "C18_IbcErrorAck"],
@@ -11,7 +11,9 @@ FORMULAS = dict(
 NGAS = 9  # opcode boundaries of the worker contract (PUSH1 PUSH1 SSTORE x3; the final STOP is free); the harness checks it
 ATT = ["none", "exists", "fxdec", "oset"]
 GOV = ["none", "first", "middle", "last", "midwrite"]
-IBC = ["none", "memo0", "memo1", "memoInvalid", "alias", "unknown", "bech", "pairOff"]
+# a packet's two follow-ups are independent dimensions of the step: coin/receiver class x memo kind (every combination)
+IBC = ["none", "fx", "alias", "unknown", "bech", "pairOff"]                 # "none": voucher with a pair (converted), "fx": native coin
+IBC_MEMO = ["none", "text", "json", "call", "rev0", "rev1", "invalid"]      # none / ignored by design x2 / succeeds / fails x3
 CALL_BASE = ["none", "revert0", "revert1", "inv0", "inv1", "under", "jump", "loop", "sct0", "sct1", "pair1", "pair2", "pair3", "unknown", "gaslow"]
 CALL_Q = CALL_BASE + ["gas0", "gas4", "gas8"]                       # a few opcode boundaries
 CALL_T = CALL_BASE + ["gas%d" % i for i in range(NGAS)]             # every executed opcode boundary
@@ -19,7 +21,7 @@ REFUND = ["rA", "rB"]
 
 
 def consts(steps, call):
-    return dict(MaxSteps=steps, AttFp=ATT, CallFp=call, GovFp=GOV, IbcFp=IBC, Refund=REFUND)
+    return dict(MaxSteps=steps, AttFp=ATT, CallFp=call, GovFp=GOV, IbcFp=IBC, IbcMemo=IBC_MEMO, Refund=REFUND)
 
 
 def cfg(name, tiers, c, shards=14, rej_sample=0, **kw):
@@ -44,7 +46,7 @@ ASSUMPTIONS = [
     "attestation boundary: on this tree every handler failure happens before the handler's first write (bridge token exists / FX decimals / unknown oracle set); SendToFx, BridgeCall and BridgeCallResult claims are parked and belong to the call boundary",
     "call boundary: three registered bridge tokens with amounts 1,2,3; one honest oracle holds all power (observation = one claim); executeClaim through the real precompile in an EVM transaction; callees failing with VM errors other than REVERT (INVALID at once / after a write, stack underflow, bad jump, endless loop burning the whole limit); gas cuts at the opcode boundaries of a traced first run in the same pre-state bound the callee alone through the module's BridgeCallMaxGasLimit, under consensus parameters without a block gas limit (max_gas = -1) because keeper CallEVM replaces every limit by the block's maximum gas when one is set (then the callee always gets the block limit: the 'loop' callee); every claim carries the same external block height so that no bridge-call timeout fires",
     "gov boundary: MsgUpdateStore messages writing marker keys; both validators vote yes; the real x/gov EndBlocker runs at the end of the voting period",
-    "ibc boundary: the C19 world (localhost loopback, real MsgRecvPacket through IBC core)",
+    "ibc boundary: the C19 world (localhost loopback, real MsgRecvPacket through IBC core); every packet is the product of a coin/receiver class (voucher with a token pair, native coin, bridged alias, unknown token, bech32 receiver, pair disabled) and a memo kind (none, free text and non-call JSON - both ignored by design -, call that succeeds, callee reverting at once / after a write, invalid call packet); a packet is a tolerated failure as soon as either follow-up fails",
     "pair toggles are applied and taken back inside the step with the real governance-authority messages",
 ]
 
@@ -58,6 +60,6 @@ specs.REGISTRY["C18"] = run
 specs.MANIFEST["C18"] = dict(
     category="model_checking",
     technique="TLA+ spec Tolerated.tla (four tolerated-failure boundaries, designated outcome per boundary) : TLC exhaustive model check + replay of every generated step on the real application with a differential full-store oracle (provoked failure vs designated outcome from the same pre-state) + TLC evaluation of the C18 formulas on recorded real behaviours",
-    text="For the four places where fxcore continues after a failure (observed event whose handler fails; inbound bridge call whose contract call fails, through executeClaim; passed proposal one of whose messages fails; IBC packet whose conversion or memo call fails, through IBC core) and every failure point (first/middle/last token or message, message failing after its own write, contract reverting before/after its own writes (also through the send-call-to memo path), out of gas at opcode boundaries, token pair disabled, unknown token, invalid call packet, bech32 receiver) the complete multistore after the step equals the designated outcome produced from the same pre-state by the same code with a sub-step that fails at once (residue = 0 differing keys), and the designated outcome itself is right: event marked observed; exactly one refund record to the refund address with exactly the call's tokens while no party gains or loses a token and nothing stays parked; proposal marked failed; error acknowledgement.",
+    text="For the four places where fxcore continues after a failure (observed event whose handler fails; inbound bridge call whose contract call fails, through executeClaim; passed proposal one of whose messages fails; IBC packet whose conversion or memo call fails - each of the two follow-ups failing or not independently of the other, incl. a failed conversion followed by an ignored memo or by a call that would succeed -, through IBC core) and every failure point (first/middle/last token or message, message failing after its own write, contract reverting before/after its own writes (also through the send-call-to memo path), out of gas at opcode boundaries, token pair disabled, unknown token, invalid call packet, bech32 receiver) the complete multistore after the step equals the designated outcome produced from the same pre-state by the same code with a sub-step that fails at once (residue = 0 differing keys), and the designated outcome itself is right: event marked observed; exactly one refund record to the refund address with exactly the call's tokens while no party gains or loses a token and nothing stays parked; proposal marked failed; error acknowledgement, nothing credited and no memo call executed.",
     note="bounded: histories of <=2 (quick) / <=4 (thorough) steps, three-token calls, two refund addresses (funded / unfunded), gas limits at a few (quick) / all (thorough) opcode boundaries of one callee; attestation handlers of this tree cannot fail after a write; trusted: TLC, the store dump, the masks listed in the assumptions",
     ref="5 (C18)")
